@@ -271,6 +271,59 @@ done:
   return 1;
 }
 
+/* xcopy <nm> (<code> <len> <seed>)*nm <k> <opt>*k : k transforms with copy options on ONE
+ * reused TurboJPEG transformer; R: the COM/APPn segments of each output (the encoder's own
+ * JFIF APP0 excluded), transforms separated by "|" */
+static void print_extra(int code, const unsigned char *p, size_t len, void *u)
+{
+  int *first_jfif = (int *)u;
+  if (code == 0xFE || (code >= 0xE0 && code <= 0xEF)) {
+    if (code == 0xE0 && len >= 5 && !memcmp(p, "JFIF", 5) && !*first_jfif) { *first_jfif = 1; return; }
+    printf(" %d:%zu:%llu", code, len, fnv(p, len));
+  }
+}
+static int op_xcopy(toks_t *t)
+{
+  int nm = (int)tl(t, 1), i, k, at;
+  struct jpeg_compress_struct c; my_err_t e;
+  unsigned char *src = NULL, *buf; unsigned long srcsize = 0;
+  tjhandle h;
+  c.err = my_err_init(&e);
+  jpeg_create_compress(&c);
+  if (setjmp(e.jb)) { printf("R err %d\n", e.code); jpeg_destroy_compress(&c); free(src); return 1; }
+  jpeg_mem_dest(&c, &src, &srcsize);
+  c.image_width = 16; c.image_height = 16; c.input_components = 1; c.in_color_space = JCS_GRAYSCALE;
+  jpeg_set_defaults(&c);
+  jpeg_start_compress(&c, TRUE);
+  buf = (unsigned char *)malloc(70000);
+  for (i = 0; i < nm; i++) {
+    int code = (int)tl(t, 2 + i * 3); size_t len = (size_t)tl(t, 3 + i * 3), j; unsigned long long sd = (unsigned long long)tll(t, 4 + i * 3);
+    for (j = 0; j < len; j++) buf[j] = gen_byte(sd, j);
+    jpeg_write_marker(&c, code, buf, (unsigned int)len);
+  }
+  free(buf);
+  { unsigned char row[16]; JSAMPROW rp = row; memset(row, 100, 16); for (i = 0; i < 16; i++) jpeg_write_scanlines(&c, &rp, 1); }
+  jpeg_finish_compress(&c);
+  jpeg_destroy_compress(&c);
+  at = 2 + nm * 3; k = (int)tl(t, at);
+  h = tj3Init(TJINIT_TRANSFORM);
+  printf("R ok");
+  for (i = 0; i < k; i++) {
+    int opt = (int)tl(t, at + 1 + i), fj = 0;
+    unsigned char *dst = NULL; size_t dsize = 0; tjtransform xf;
+    memset(&xf, 0, sizeof(xf)); xf.op = TJXOP_NONE;
+    tj3Set(h, TJPARAM_SAVEMARKERS, opt);
+    if (tj3Transform(h, src, srcsize, 1, &dst, &dsize, &xf) < 0) printf(" xerr");
+    else walk_segments(dst, dsize, print_extra, &fj);
+    printf(" |");
+    tj3Free(dst);
+  }
+  printf("\n");
+  tj3Destroy(h);
+  free(src);
+  return 1;
+}
+
 static int dispatch_c16(toks_t *t)
 {
   const char *op = t->tok[0];
@@ -279,5 +332,6 @@ static int dispatch_c16(toks_t *t)
   if (!strcmp(op, "msave")) return op_msave(t);
   if (!strcmp(op, "ss")) return op_ss(t);
   if (!strcmp(op, "hdr")) return op_hdr(t);
+  if (!strcmp(op, "xcopy")) return op_xcopy(t);
   return 0;
 }
